@@ -65,6 +65,7 @@ type Case struct {
 	Pre   []Pre
 	Ops   []Op
 	TZMin int // process time zone offset from UTC in minutes (signed updates carry a timestamp)
+	Split int // pre-populated store built from two overlays: 1 With(a, b), 2 With(a).With(b); the caller's maps stay the caller's
 }
 
 // dbValue draws an encodable database value: empty, 1..3 lists, entries of several sizes.
@@ -122,6 +123,9 @@ func genCase(t *rapid.T) Case {
 			}
 			c.Pre = append(c.Pre, Pre{Var: v, Value: val})
 		}
+	}
+	if len(c.Pre) >= 2 {
+		c.Split = rapid.IntRange(0, 2).Draw(t, "overlays")
 	}
 	if rapid.Bool().Draw(t, "nonutc") {
 		c.TZMin = 15 * rapid.IntRange(-48, 56).Draw(t, "tzquarters")
@@ -244,13 +248,51 @@ func checkCase(c Case) error {
 	model := map[int][]byte{}
 	store := testfs.NewTestFS()
 	if len(c.Pre) > 0 {
-		m := fstest.MapFS{}
-		for _, p := range c.Pre {
+		m, m2 := fstest.MapFS{}, fstest.MapFS{}
+		for i, p := range c.Pre {
 			v := vars[p.Var%len(vars)]
-			m[fileName(v)] = &fstest.MapFile{Data: append(binary.LittleEndian.AppendUint32(nil, uint32(v.Attributes)), p.Value...)}
+			f := &fstest.MapFile{Data: append(binary.LittleEndian.AppendUint32(nil, uint32(v.Attributes)), p.Value...)}
+			if c.Split != 0 && i > 0 {
+				if _, dup := m[fileName(v)]; !dup {
+					m2[fileName(v)] = f
+				} else {
+					m[fileName(v)] = f
+				}
+			} else {
+				m[fileName(v)] = f
+			}
 			model[p.Var%len(vars)] = p.Value
 		}
-		store = store.With(m)
+		switch {
+		case c.Split == 1 && len(m2) > 0:
+			store = store.With(m, m2)
+		case c.Split == 2 && len(m2) > 0:
+			store = store.With(m).With(m2)
+		default:
+			for k, f := range m2 {
+				m[k] = f
+			}
+			m2 = nil
+			store = store.With(m)
+		}
+		if len(m2) > 0 {
+			// the fixtures are the caller's: a second store built from the first overlay alone holds that overlay's
+			// variables and nothing of the other one
+			hx.Class("prepopulated_from_two_overlays")
+			for k := range m2 {
+				if _, leaked := m[k]; leaked {
+					return fmt.Errorf("building a store from two overlays put %s of the second overlay into the caller's first overlay map", k)
+				}
+			}
+			other := testfs.NewTestFS().With(m).Open()
+			for i, v := range vars {
+				if _, in2 := m2[fileName(v)]; in2 {
+					if err := other.GetVar(v, &spy{}); err == nil {
+						return fmt.Errorf("a second store built from the first overlay alone reads %s, which only the other store's second overlay holds", varNames[i])
+					}
+				}
+			}
+		}
 	}
 	if c.TZMin != 0 {
 		saved := time.Local
